@@ -70,6 +70,12 @@ def scribble(v):
     except Exception:  # pragma: no cover
         np = None
     if isinstance(v, list):
+        for x in v:
+            if isinstance(x, (list, dict, tuple)) or (np is not None and isinstance(x, np.ndarray)):
+                scribble(x)                       # nested containers first (a result may be [value, table])
+        if v and all(isinstance(x, str) for x in v):
+            v.pop(0)                              # a list of letters/names: drop one, add a foreign one
+            v.append("X")
         if v:
             v.reverse()
         v.append(999999)
